@@ -719,7 +719,12 @@ def oracle_C07(t):
     for i in range(t.n):
         st, o = t.steps[i], t.obs[i]
         fr = frames[i]
-        if st["kind"] == "req" and o["res"] == "sess" and not st.get("plan"):
+        # (not judged once a store call has failed: C07 quantifies over crashes and
+        # cache loss, not over store failures, and after a *reported* failure of an
+        # ID change memory and store may hold two full copies of one session - the
+        # ID in the object has advanced, the record under it was never written -
+        # so that ending the session through one ID leaves the other copy)
+        if st["kind"] == "req" and o["res"] == "sess" and not st.get("plan") and not any(t.faulted(j) for j in range(i)):
             sk = kt(o["start"]["key"])
             if sk in dead_keys and sk not in t.draws(i):
                 out.append(F(i, "a request obtained a session that had been destroyed or invalidated"))
